@@ -44,6 +44,7 @@ type c20Tunnel struct {
 	HSForm   int      `json:"handshake_form,omitempty"` // 0 "Connection: Upgrade", 1 "keep-alive, Upgrade" (as Firefox sends), 2 lower-case tokens
 	Handler  int      `json:"handler_timeout"`
 	Pool     bool     `json:"ws_pool"`
+	Breaker  bool     `json:"breaker,omitempty"` // circuit breaker on, one failed plain request before the session: a successful session is not a failure
 	Script   wsScript `json:"script"`
 }
 
@@ -202,12 +203,34 @@ func c20RunTunnel(e *vh.Env, c c20Tunnel, o *vh.Out) {
 	if c.Pool {
 		cfg.LoadBalancer.WebSocketPool = config.WebSocketPoolConfig{Enabled: true, MaxIdle: 2, MaxActive: 4, IdleTimeoutSeconds: 30}
 	}
+	if c.Breaker {
+		cfg.CircuitBreaker = config.CircuitBreakerConfig{Enabled: true, FailureThreshold: 2, SuccessThreshold: 1, IntervalSeconds: 3600, TimeoutSeconds: 3600}
+	}
 	sys, err := startSys(cfg, bes, true)
 	if err != nil {
 		o.Inconcl("startSys: %v", err)
 		return
 	}
 	defer sys.Close()
+	plain := func(status int) *vh.RawResp {
+		sc := vh.Script{Status: status, Steps: []vh.Step{{Op: "write", N: 5}}}
+		return vh.Do(sys.Addr, vh.RawReq{Method: "GET", Target: "/plain", Headers: [][2]string{{vh.ScriptHeader, sc.Encode()}, {"X-API-Key", "k"}}, Instant: true})
+	}
+	if c.Breaker {
+		// one failure is on the breaker's count when the session starts (threshold 2)
+		if r := plain(500); r.Status != 500 {
+			o.Inconcl("the plain 500 before the session was answered %d", r.Status)
+			return
+		}
+		defer func() {
+			vh.Settle()
+			if r := plain(200); r.Status != 200 {
+				o.Viol("C20|tunnel|session-counted-as-failure|"+fmt.Sprintf("chain=%s", c.Chain), fmt.Sprintf("%s chain=%q: one failed request, then a WebSocket session, then a plain request is answered %d %q: the breaker (failure threshold 2) took the session for a failure", c.Strategy, c.Chain, r.Status, trunc(string(r.Body), 60)), nil)
+				return
+			}
+			o.Obs("plain_requests_after_session_with_breaker", 1)
+		}()
+	}
 	sc := c.Script
 	scripts.Store(sc.ID, sc)
 	ctx := fmt.Sprintf("%s chain=%q gzip-handshake=%v handshake-form=%d handler-timeout=%d pool=%v script=%s", c.Strategy, c.Chain, c.GzipHS, c.HSForm, c.Handler, c.Pool, vh.J(sc))
@@ -628,7 +651,7 @@ func init() {
 							handler = 2
 							sc.PauseMs = 5000 // the session outlives every request-scoped timeout
 						}
-						cs = append(cs, c20Tunnel{Strategy: allStrategies[n%5], Chain: ch, GzipHS: gz, HSForm: (n / 2) % 3, Handler: handler, Pool: n%3 == 0, Script: sc})
+						cs = append(cs, c20Tunnel{Strategy: allStrategies[n%5], Chain: ch, GzipHS: gz, HSForm: (n / 2) % 3, Handler: handler, Pool: n%3 == 0, Breaker: n%4 == 1, Script: sc})
 						n++
 					}
 				}
@@ -636,7 +659,7 @@ func init() {
 			return cs
 		},
 		func(e *vh.Env, c c20Tunnel, o *vh.Out) {
-			o.Need("sessions", "sessions_exact", "messages_relayed")
+			o.Need("sessions", "sessions_exact", "messages_relayed", "plain_requests_after_session_with_breaker")
 			c20RunTunnel(e, c, o)
 			o.Distinct(fmt.Sprintf("%s|%v|%d|%d|%v", c.Chain, c.GzipHS, c.HSForm, c.Handler, c.Script))
 			if c.Chain == "LSGH" && c.GzipHS && c.Handler == 0 {
